@@ -34,6 +34,13 @@ CHECKS = {
                 text='Partial: only complete tuples enter a key reference, the ID table writer and reader agree on their constants and a '
                      'second definition is reported, the scope-exit and end-of-document checks run on every completing path, counters '
                      'report on the second occurrence. Value-space equality of field tuples and scope nesting are not decided.', note=NOTE),
+    'C11': dict(ref='DESIGN.md §2 C11', technique='handler-coverage analysis over the exception class hierarchy, explicit raise-set closures '
+                                                    'from an instance table, counter/guard analysis of the parser loops, call-graph cycle vs recursion limit',
+                text='Partial: converter exceptions are captured at every converter call site, the explicit raise-set of each guarded '
+                     'callee is covered by the handlers at every guarding site, validation errors are raised only inside guarded '
+                     'validator callables, the depth/element limit guards are well-formed with the documented threshold, and the depth '
+                     'limit is compared with the recursion budget. Termination and implicit interpreter exceptions are not decided.',
+                note=NOTE),
 }
 NOT_APPLICABLE = {
     'C06': 'equivalence of lazy and eager traversals quantifies over runtime chunkings of runtime trees; no structural necessary '
@@ -43,6 +50,6 @@ NOT_APPLICABLE = {
     'C16': 'set semantics of hand-written case splits over namespace constraints can only be decided by evaluating them over the '
            'enumerated domain (execution); shape rules are blind to the defect quoted in the property',
 }
-for _p in ( 'C08', 'C09', 'C10', 'C11', 'C12', 'C13', 'C14', 'C17', 'C18', 'C19', 'C20'):
+for _p in ( 'C08', 'C09', 'C10', 'C12', 'C13', 'C14', 'C17', 'C18', 'C19', 'C20'):
     NOT_APPLICABLE.setdefault(_p, PENDING)
-FIX_COMMITS = ['0d39fae', 'ee7fbf0', 'ec74ff3']
+FIX_COMMITS = ['0d39fae', 'ee7fbf0', 'ec74ff3', '0116491', '72bb2c6', '4feb9ab']
